@@ -32,11 +32,18 @@ def consts(tier: str, part: str):
         if part == "free":
             base.update({"Topos": g.tla_set(["face2", "edge2", "hook3"]), "RotChoice": "{1, 30}",
                          "ChopOpts": g.tla_set(["A2", "B3"]), "MaxChopped": "2", "Cover": "FALSE", "AllOrders": "TRUE"})
+        elif part == "chain":
+            # a chain fed from one end, in every insertion order: progress must not depend on the visiting order
+            base.update({"Topos": g.tla_set(["row4"]), "RotChoice": "{1}",
+                         "ChopOpts": g.tla_set(["A2"]), "MaxChopped": "0", "Cover": "TRUE", "AllOrders": "TRUE"})
         else:
             base.update({"Topos": g.tla_set(["ell3", "tee4b"]), "RotChoice": "{1, 43}",
                          "ChopOpts": g.tla_set(["A2"]), "MaxChopped": "1", "Cover": "TRUE", "AllOrders": "FALSE"})
     else:
-        if part == "free":
+        if part == "chain":
+            base.update({"Topos": g.tla_set(["row4", "zig4"]), "RotChoice": "{1, 4, 30}",
+                         "ChopOpts": g.tla_set(["A2"]), "MaxChopped": "0", "Cover": "TRUE", "AllOrders": "TRUE"})
+        elif part == "free":
             base.update({"Topos": g.tla_set(["face2", "edge2", "corner2", "row3", "ell3", "hook3", "stair3"]),
                          "RotChoice": "{1, 4, 30}", "Rot1Choice": "{1, 11}",
                          "ChopOpts": g.tla_set(["A2", "B3", "C2"]), "MaxChopped": "2", "Cover": "FALSE", "AllOrders": "TRUE"})
@@ -66,9 +73,9 @@ def run(ctx: Ctx) -> None:
                 "each replayed under several forced iteration orders of Axis.neighbours/Wire.coincidents; "
                 "non-trivial = propagation has to cross at least one shared edge; distinct by (vertex ids, chops)")
     rng = random.Random(ctx.seed + 2)
-    n_sched = 3 if ctx.tier == "quick" else 8
-    limit = 350 if ctx.tier == "quick" else 12000
-    for part in ("free", "cover"):
+    n_sched = 2 if ctx.tier == "quick" else 8
+    limit = 260 if ctx.tier == "quick" else 12000
+    for part in ("free", "cover", "chain"):
         c = consts(ctx.tier, part)
         cfgs = g.model_check(ctx, c, INVS, props=["Terminates"] if ctx.tier == "thorough" else [],
                              timeout=3000, emit=True).records
